@@ -595,6 +595,16 @@ Proof.
   replace (length inp - j) with (length (skipn j inp)) by (rewrite skipn_length; lia).
   now rewrite firstn_all, firstn_skipn.
 Qed.
+
+Definition init_or (init : option A) : A := match init with Some i => i | None => e end.
+
+Lemma apply_initial_msum init l : apply_initial f init (msum l) = fold_left f l (init_or init).
+Proof. destruct init as [i|]; simpl; [now rewrite fold_left_msum | reflexivity]. Qed.
+
+(* ... and with an initial value it is the fold seeded by it (what the scalar evaluator computes) *)
+Theorem eval_reduce_full_init_eq (d z : A) init inp :
+  option_map (apply_initial f init) (eval_reduce_full N f z e (length inp) inp) = Some (fold_left f inp (init_or init)).
+Proof. rewrite (eval_reduce_full_eq d z). simpl. now rewrite apply_initial_msum. Qed.
 End Full.
 
 (* ------------------------------------------------------------------ horizontal 2-d core *)
@@ -711,6 +721,15 @@ Proof.
     cbn [obind]. replace (S (R - S k)) with (R - k) by lia. apply IH. lia. }
   specialize (Hgen R ltac:(lia)). rewrite Nat.sub_diag, done_0 in Hgen. rewrite Hgen. cbn [option_map fst]. f_equal.
   unfold done. rewrite firstn_all2 by (rewrite hvals_length; lia). rewrite skipn_all2 by lia. apply app_nil_r.
+Qed.
+
+Theorem hreduce_init_eq (d : A) init out0 : length out0 = R ->
+  option_map (map (apply_initial f init))
+    (option_map fst (run_hsteps N f z e inp (red_entries N HORIZONTAL out2 (R, C)) (out0, set1 N e)))
+  = Some (map (fun r => fold_left f (firstn C (skipn (r * C) inp)) (init_or init)) (seq 0 R)).
+Proof.
+  intros Hlo. rewrite (hreduce_eq d out0 Hlo). simpl. f_equal. unfold hvals. rewrite map_map.
+  apply map_ext. intros r. apply apply_initial_msum.
 Qed.
 End Horizontal.
 End Monoid.
